@@ -5,7 +5,7 @@ rows = []
 for d in sorted(glob.glob(os.path.join(os.path.dirname(os.path.dirname(os.path.abspath(__file__))), 'seeded', '*'))):
     m = json.load(open(os.path.join(d, 'meta.json')))
     db = m.get('detected_by') or {}
-    res = '**missed**' if db.get('missed') else 'caught'
+    res = '**missed**' if db.get('missed') else ('neutralised by a later fix (caught before it)' if m.get('neutralised') else 'caught')
     by = '; '.join(db.get('obligations') or []) or db.get('why', '')
     rows.append('| %s | %s | %s | %s: %s |' % (os.path.basename(d), (m.get('needs_to_manifest') or '')[:130].replace('|', '/'), res, db.get('check', ''), by[:260].replace('|', '/')))
 print('| seed | needs to manifest | result | by |\n|---|---|---|---|')
